@@ -12,7 +12,7 @@ DELIM = H.DELIM
 WS = b' \t\n\r\x0b\x0c'
 
 # ------------------------------------------------------------------ implementation side
-def run_stream_obs(segments, filters, use_filter=True, forms=None):
+def run_stream_obs(segments, filters, use_filter=True, forms=None, base=10):
     """As saxpath.run_stream, plus the observations.  -> (results per request, obs)
     obs = dict(reads=[state after each read...], outs=[(via_sax, raw message)...], fed=[bytes per reply, oldest first],
                raised=[bool per reply: a feed() raised], died=exception class name or None)
@@ -34,31 +34,38 @@ def run_stream_obs(segments, filters, use_filter=True, forms=None):
     orig = P.make_parser
     P.make_parser = lambda: RecParser()
     try:
-        s, dh = H.make_session(use_filter)
-        base = s.__class__
+        s, dh = H.make_session(use_filter, base)
+        cls0 = s.__class__
 
         def snapshot(self):
             p = self.parser
             buf = self._buffer.getvalue()
-            if isinstance(p, P.JunosXMLParser):
+            if base == 11:
+                # chunked framing: the Junos parser stays; the framing side is the buffer and the chunks of the message in progress
+                st = (5 if isinstance(p, P.JunosXMLParser) else 6, getattr(p, '_held', None), getattr(p, '_head', None), buf,
+                      b''.join(self._message_list), len(log['outs']))
+            elif isinstance(p, P.JunosXMLParser):
                 st = (0, p._held, p._head, buf, len(log['outs']), len(log['fed'][-1]), log['raised'][-1])
             else:
                 st = (1, b'', b'', buf.lstrip(WS), len(log['outs']), len(log['fed'][-1]), log['raised'][-1])
             log['reads'].append(st)
 
-        class Obs(base):
+        class Obs(cls0):
             _first = True
             def _transport_read(self):
                 if not self._first: snapshot(self)
                 self._first = False
-                return base._transport_read(self)
+                return cls0._transport_read(self)
             def _dispatch_message(self, raw):
-                log['outs'].append((isinstance(self.parser, P.JunosXMLParser), raw))
+                # written by the SAX handler?  base:1.0: the Junos parser is (still) the session's parser; base:1.1: the
+                # XML parser of this message was fed and did not raise
+                via = isinstance(self.parser, P.JunosXMLParser) if base != 11 else (bool(log['fed'][-1]) and not log['raised'][-1])
+                log['outs'].append((via, raw))
                 log['fed'].append(b''); log['raised'].append(False)
-                return base._dispatch_message(self, raw)
+                return cls0._dispatch_message(self, raw)
             def _dispatch_error(self, err):
                 if log['died'] is None and not self._closing.is_set(): log['died'] = type(err).__name__
-                return base._dispatch_error(self, err)
+                return cls0._dispatch_error(self, err)
         s.__class__ = Obs
         objs = H.issue_requests(s, dh, filters, forms)
         s.segments = list(segments)
@@ -123,6 +130,52 @@ def world_for(stream, ids, filters, env_val, events_val):
         except Exception:
             pass
     return world
+
+def world_for11(messages, ids, filters, env_val, events_val):
+    """base:1.1: one entry per (complete, de-chunked) message of the stream, as the harness framed them -- no ncclient
+    code involved; the script is that of the whole message (nothing is stripped)."""
+    table = dict(zip(ids, filters))
+    world = []
+    for body in list(messages) + [b'']:
+        enc = [[] if e is None else [events_val(e)] for e in expat_script(body)]
+        world.append([env_val(dict(table), True), enc, 1])
+        try:
+            table.pop(ET.fromstring(body.decode('utf-8')).get('message-id'), None)
+        except Exception:
+            pass
+    return world
+
+def compare11(mres, log):
+    """base:1.1: model result (glue fn 5) vs the observations.  Per read: the Junos parser is still the session's parser
+    with nothing held, the session buffer (octets not yet de-chunked), the chunks of the message in progress, the number of
+    messages dispatched; at the end: the messages (handler output stripped / the message as received), the octets each
+    message's XML parser was given."""
+    mreads, mouts, mfed = mres
+    for i, m in enumerate(mreads):
+        if m[0] == 2:
+            if len(log['reads']) > i or log['died'] is None:
+                return ('read %d: model says the session ends (exception %d), the implementation went on' % (i, m[1]), m, log['died'])
+            break
+        if i >= len(log['reads']):
+            return ('read %d: the implementation ended the session (%s), the model goes on' % (i, log['died']), m, log['died'])
+        mm = (5, b'', b'', bytes(m[2]), bytes(m[3]), m[4])
+        if mm != tuple(log['reads'][i]):
+            return ('read %d (base:1.1): state after the read differs (parser, held, head, buffer, chunks in progress, #dispatched)' % i,
+                    list(mm), list(log['reads'][i]))
+    else:
+        if len(log['reads']) != len(mreads):
+            return ('number of reads processed', len(mreads), len(log['reads']))
+    mo = [(bool(v), bytes(b).decode('utf-8', 'replace').strip().encode() if v else bytes(b)) for v, b in mouts]
+    io_ = [(v, (b if isinstance(b, bytes) else b.encode())) for v, b in log['outs']]
+    if mo != io_:
+        return ('messages dispatched (base:1.1)', mo, io_)
+    mf = [bytes(b) for b in reversed(mfed)]
+    if len(mf) != len(log['fed']):
+        return ('number of messages given to an XML parser', len(mf), len(log['fed']))
+    for k, (a, b, r) in enumerate(zip(mf, log['fed'], log['raised'])):
+        if (a != b) if not r else (not b.startswith(a)):
+            return ('octets given to the XML parser of message %d' % k, a, b)
+    return None
 
 def lens_of(stream, cuts):
     """read lengths for the model's `segments` from cut offsets"""
